@@ -110,6 +110,11 @@ pub fn run(args: &[String]) -> i32 {
         (vec![9], b"ghijklmnopqrstux01234yz ghijklmnopqr".to_vec(), vec![(0, 20), (9, 27)], 0),
         (vec![9], b"ghijklmnopqrstux01234yz ghijklmnopqr".to_vec(), vec![(9, 27), (0, 20)], 0),
         (vec![9, 0], b"ghijklmnopqrstux01234yz abc ghijklmn".to_vec(), vec![(0, 20), (9, 27)], 16),
+        // a second, shorter block at the base of an earlier one (used to trip a debug assertion)
+        (vec![0], b"Lorem abc dolor".to_vec(), vec![(0, 15), (0, 5)], 0),
+        (vec![0, 1], b"Lorem abc dolor abab".to_vec(), vec![(0, 20), (0, 0), (0, 8)], 3),
+        // no block at all (finish() used to panic)
+        (vec![0, 1], b"Lorem abc dolor abab".to_vec(), vec![], 0),
         // thorough seed 1 #912: Match::data() panics (unwrap on None) after overlapping blocks
         (vec![9, 8, 2], b" _op s.q js sjpzx01234ivjk.prqkyizpzp iyumm. g tgj_hritgrty_qrtyt hthvksvlmjkmvjy gqhynmiz ngoo.nsz_  ihk.v vuutaaabyt.m _kio.hhsklh_h tvztjh.jqlrmyyl pjgrlhku_x01".to_vec(), vec![(0, 20), (9, 119), (128, 3), (139, 24), (34, 0)], 16),
     ];
@@ -160,13 +165,22 @@ pub fn run(args: &[String]) -> i32 {
         }
         if rng.chance(1, 4) && !blocks.is_empty() { let b = *rng.pick(&blocks); blocks.push(b); stats.inc("repeated_block"); }
         if rng.chance(1, 3) {
-            // an empty block at a base no other block starts at (a second, shorter block at the base of an
-            // earlier one trips a debug_assert in blocks.rs: reported separately)
-            let base = rng.below(flen as u64 + 50) as usize;
-            if !blocks.iter().any(|b| b.0 == base) && base <= flen { blocks.push((base, 0)); stats.inc("empty_block"); }
+            // an empty block anywhere, also at the base of another block
+            let base = if rng.chance(1, 3) && !blocks.is_empty() { rng.pick(&blocks).0 } else { rng.below(flen as u64 + 1) as usize };
+            blocks.push((base, 0)); stats.inc("empty_block");
         }
-        // no two different blocks at the same base (see above)
-        { let mut seen: Vec<(usize, usize)> = vec![]; blocks.retain(|b| { if seen.iter().any(|s| s.0 == b.0 && s.1 != b.1) { false } else { seen.push(*b); true } }); }
+        if rng.chance(1, 4) && !blocks.is_empty() {
+            // a shorter or longer block at the base of another one (consistent data: slices of the same file)
+            let b = *rng.pick(&blocks);
+            let len = rng.below((flen - b.0) as u64 + 1) as usize;
+            blocks.push((b.0, len)); stats.inc("same_base_block");
+        }
+        if rng.chance(1, 4) && flen > 40 {
+            // a block overlapping its neighbours anywhere (cuts greedy matches differently than they do)
+            let base = rng.below(flen as u64 - 20) as usize;
+            let len = 1 + rng.below((flen - base) as u64) as usize;
+            blocks.push((base, len)); stats.inc("overlapping_block");
+        }
         if rng.chance(1, 2) { for i in (1..blocks.len()).rev() { let j = rng.below(i as u64 + 1) as usize; blocks.swap(i, j); } stats.inc("shuffled"); }
         let mut ctx = *rng.pick(&[0usize, 0, 3, 16]);
         let mut used = rng.below(3);
